@@ -290,7 +290,7 @@ func runC17(c *Ctx) {
 	m.Master = false
 	m.Label = "master-off"
 	confs = append(confs, m)
-	nRand := c.N(300, 4000)
+	nRand := c.N(300, 20000)
 	for i := 0; i < nRand; i++ {
 		r := root.Fork(uint64(i))
 		cf := c17AllOn()
@@ -316,7 +316,7 @@ func runC17(c *Ctx) {
 		}
 		sort.Strings(rels)
 		rp := root.Fork(0x70617473)
-		for i := 0; i < c.N(10, 60); i++ {
+		for i := 0; i < c.N(10, 400); i++ {
 			rel := rels[rp.Intn(len(rels))]
 			stem := strings.TrimSuffix(rel, ".lua")
 			a := rp.Intn(len(stem))
